@@ -518,11 +518,10 @@ def r3v_for_vec(text):
         j = mo.end() - 1
         close = match_close(m, j)
         body = text[j + 1:close]
-        if re.search(r'(?<![A-Za-z0-9_])continue(?![A-Za-z0-9_])', mask(body)):
-            raise ExtractError('R3V: loop body contains continue')
+        # the index is advanced right after the element is taken, so `continue` in the body keeps its meaning
         i = 'vx_i%d' % n
-        new = ('let mut %s: usize = 0;\nwhile %s < %s.len() {\nlet %s = %s[%s];%s\n%s += 1;\n}'
-               % (i, i, v, x, v, i, body.rstrip(), i))
+        new = ('let mut %s: usize = 0;\nwhile %s < %s.len() {\nlet %s = %s[%s];\n%s += 1;%s\n}'
+               % (i, i, v, x, v, i, i, body.rstrip()))
         text = text[:mo.start()] + new + text[close + 1:]
         n += 1
     return text, n
